@@ -43,11 +43,17 @@ From LQ Require Export Base.Str.
 
 (** * Syntax *)
 
+Inductive wrap := WIf | WFor.
+
 Inductive item :=
 | Text (s : str)
 | Blk (n : str) (req : bool) (body : list item) (endn : option str)
 | Super                       (* {{ block.super }} *)
-| Ext (n : str).              (* {% extends 'n' %} *)
+| Ext (n : str)               (* {% extends 'n' %} *)
+| Quiet                       (* a tag that writes nothing: assign, comment *)
+| Wrap (k : wrap) (body : list item).
+                              (* {% if true %}body{% endif %}  /
+                                 {% for i in (1..1) %}body{% endfor %} *)
 
 Definition template := list item.
 Definition loader := list (str * template).
@@ -62,6 +68,39 @@ Definition tie {A} : res A := LErr TemplateInheritanceError None.
 Definition reqerr {A} : res A := LErr RequiredBlockError None.
 Definition notfound {A} : res A := LErr TemplateNotFoundError None.
 
+(** * The static [blank] flag of each node class and blank-block suppression
+
+    Node.blank defaults to True (ast.py:38: assign, comment, ...);
+    ContentNode.blank = [not text or text.isspace()] (content.py:41);
+    OutputNode, ExtendsNode and the block tag's BlockNode set it to False
+    (output.py:31, extends_tag.py:51,171); IfNode / ForNode inherit it from
+    their block (if_tag.py:45, for_tag.py:47); ast.BlockNode (the body of
+    every block tag, if and for) is blank iff all its nodes are (ast.py:146). *)
+
+(** [str.isspace] on one code point (the code points below 256; the
+    generated texts use only space and newline as whitespace). *)
+Definition is_ws (c : N) : bool :=
+  ((9 <=? c) && (c <=? 13) || (28 <=? c) && (c <=? 32) || (c =? 133) || (c =? 160))%N.
+
+Fixpoint blank_item (it : item) : bool :=
+  match it with
+  | Text s => forallb is_ws s
+  | Quiet => true
+  | Wrap _ b => forallb blank_item b
+  | Blk _ _ _ _ => false
+  | Super => false
+  | Ext _ => false
+  end.
+Definition blank_body (b : list item) : bool := forallb blank_item b.
+
+(** ast.BlockNode.render_to_output (ast.py:151-158): with
+    [env.suppress_blank_control_flow_blocks], a blank body is rendered into
+    a NullIO (errors still propagate) and contributes nothing. *)
+Definition tblock (suppress : bool) (b : list item) (r : res str) : res str :=
+  if suppress && blank_body b then (do _ <- r;; Ok []) else r.
+Definition tblock_pre (suppress : bool) (b : list item) (r : res (str * bool)) : res (str * bool) :=
+  if suppress && blank_body b then (do p <- r;; Ok ([], snd p)) else r.
+
 (** * Parsing: BlockTag.parse, extends_tag.py:320-331 *)
 
 (** [{% endblock m %}] after [{% block n %}] with m <> n raises
@@ -71,6 +110,7 @@ Fixpoint endok_item (it : item) : bool :=
   | Blk n _ b e =>
       forallb endok_item b
       && match e with None => true | Some m => str_eqb m n end
+  | Wrap _ b => forallb endok_item b
   | _ => true
   end.
 
@@ -83,12 +123,13 @@ Definition load (ld : loader) (n : str) : res template :=
   end.
 
 (** * _find_inheritance_nodes, extends_tag.py:514-534 (preorder DFS through
-      the children of block tags; an extends tag has no children here) *)
+      the children of block, if and for tags; an extends tag has no children here) *)
 
 Fixpoint exts_item (it : item) : list str :=
   match it with
   | Ext n => [n]
   | Blk _ _ b _ => flat_map exts_item b
+  | Wrap _ b => flat_map exts_item b
   | _ => []
   end.
 Definition find_exts (t : list item) : list str := flat_map exts_item t.
@@ -96,6 +137,7 @@ Definition find_exts (t : list item) : list str := flat_map exts_item t.
 Fixpoint blocks_item (it : item) : list bdef :=
   match it with
   | Blk n r b _ => {| b_name := n; b_req := r; b_body := b |} :: flat_map blocks_item b
+  | Wrap _ b => flat_map blocks_item b
   | _ => []
   end.
 Definition find_blocks (t : list item) : list bdef := flat_map blocks_item t.
@@ -186,42 +228,52 @@ Inductive drop :=
 | Own (ps : list bdef)
 | Outer (th : unit -> res str).
 
-Fixpoint cat_map (f : item -> res str) (its : list item) : res str :=
+Definition cat_map (f : item -> res str) : list item -> res str :=
+  fix cm (its : list item) : res str :=
   match its with
   | [] => Ok []
-  | it :: r => do a <- f it;; do b <- cat_map f r;; Ok (a ++ b)
+  | it :: r => do a <- f it;; do b <- cm r;; Ok (a ++ b)
   end.
 
 Section Base.
   Variable limit : nat.        (* Environment.context_depth_limit *)
+  Variable suppress : bool.    (* Environment.suppress_blank_control_flow_blocks *)
   Variable st : stacks.        (* context.tag_namespace["extends"], built *)
 
   (** One node.  [copy dr body]: render [body] in [context.copy(...)] with
       [block] bound to [dr]; [ext dr body]: render [body] inside
-      [with context.extend({"block": ...})]. *)
-  Definition item_step (copy ext : drop -> list item -> res str)
-    (dr : drop) (it : item) : res str :=
+      [with context.extend(...)] (one more scope) with [block] = [dr].
+      Every body goes through ast.BlockNode.render ([tblock]). *)
+  Definition item_step (copy ext : drop -> list item -> res str) (dr : drop)
+    : item -> res str :=
+    fix go (it : item) : res str :=
     match it with
     | Text s => Ok s
+    | Quiet => Ok []
     | Ext _ => cde                                    (* summary, see header *)
     | Super =>
         match dr with
         | Outer th => th tt
         | Own [] => Ok []                             (* env.undefined("super") *)
-        | Own (p :: ps) => ext (Own ps) (b_body p)
+        | Own (p :: ps) => tblock suppress (b_body p) (ext (Own ps) (b_body p))
         end
     | Blk n req body _ =>
         match stack_of st n with
         | [] =>                                       (* rendered directly *)
-            if req then reqerr else ext (Own []) body
+            if req then reqerr else tblock suppress body (ext (Own []) body)
         | top :: rest =>
             if b_req top then reqerr
-            else copy (Outer (fun _ =>
-                         match rest with
-                         | [] => Ok []
-                         | p :: ps => ext (Own ps) (b_body p)
-                         end)) (b_body top)
+            else tblock suppress (b_body top)
+                   (copy (Outer (fun _ =>
+                            match rest with
+                            | [] => Ok []
+                            | p :: ps => tblock suppress (b_body p) (ext (Own ps) (b_body p))
+                            end)) (b_body top))
         end
+    | Wrap WIf body =>                                (* IfNode: same context *)
+        tblock suppress body (cat_map go body)
+    | Wrap WFor body =>                               (* ForNode: context.loop = extend *)
+        tblock suppress body (ext dr body)
     end.
 
   Fixpoint R (df : nat) : nat -> drop -> list item -> res str :=
@@ -238,81 +290,90 @@ End Base.
       the leaf's own nodes until an extends tag raises StopRender;
       ExtendsNode.render_to_output (extends_tag.py:55-61) *)
 
-Fixpoint pre_items (f : item -> res (str * bool)) (its : list item) : res (str * bool) :=
+Definition pre_items (f : item -> res (str * bool)) : list item -> res (str * bool) :=
+  fix pi (its : list item) : res (str * bool) :=
   match its with
   | [] => Ok ([], false)
   | it :: r =>
       do (a, stop) <- f it;;
       if stop then Ok (a, true)
-      else do (b, stop') <- pre_items f r;; Ok (a ++ b, stop')
+      else do (b, stop') <- pi r;; Ok (a ++ b, stop')
   end.
 
 Section Leaf.
   Variable limit : nat.
+  Variable suppress : bool.
   Variable ld : loader.
   Variable leaf : template.    (* context.template *)
   Variable df : nat.
 
   (** ExtendsNode.render_to_output: the chain is built on block stacks of its
-      own ([defaultdict(list)], proposed fix 0001; before the fix: on the
-      context's stacks, which are empty unless another chain is being
-      rendered around this one), the base is rendered, StopRender. *)
+      own ([defaultdict(list)], fix 3b75f1e), the base is rendered,
+      StopRender. *)
   Definition chain (sf : nat) : res (str * bool) :=
     do (st, base) <- build_block_stacks ld [] leaf;;
     match sf with
     | O => cde                                  (* base.render_with_context: extend *)
-    | S sf' => do out <- R limit st df sf' (Own []) base;; Ok (out, true)
+    | S sf' => do out <- R limit suppress st df sf' (Own []) base;; Ok (out, true)
     end.
 
-  (** Nodes of the leaf rendered before StopRender; the block stacks are
-      empty, so every block renders directly. *)
+  (** One node of the leaf rendered before StopRender; the block stacks are
+      empty, so every block renders directly.  [here]: an extends tag at this
+      scope depth; [down]: a body one scope deeper. *)
+  Definition pre_item (here : res (str * bool)) (down : list item -> res (str * bool))
+    : item -> res (str * bool) :=
+    fix go (it : item) : res (str * bool) :=
+    match it with
+    | Text s => Ok (s, false)
+    | Super => Ok ([], false)
+    | Quiet => Ok ([], false)
+    | Blk n req body _ => if req then reqerr else tblock_pre suppress body (down body)
+    | Ext _ => here
+    | Wrap WIf body => tblock_pre suppress body (pre_items go body)
+    | Wrap WFor body => tblock_pre suppress body (down body)
+    end.
+
   Fixpoint pre (sf : nat) (its : list item) {struct sf} : res (str * bool) :=
     pre_items
-      (fun it =>
-         match it with
-         | Text s => Ok (s, false)
-         | Super => Ok ([], false)
-         | Blk n req body _ =>
-             if req then reqerr
-             else match sf with O => cde | S sf' => pre sf' body end
-         | Ext _ => chain sf
-         end)
+      (pre_item (chain sf) (match sf with O => fun _ => cde | S sf' => pre sf' end))
       its.
 End Leaf.
 
 (** [template.render_with_context(context, buf)] for a context with the given
     counters. *)
-Definition render_leaf (limit : nat) (ld : loader) (df sf : nat) (leaf : template) : res str :=
+Definition render_leaf (limit : nat) (suppress : bool) (ld : loader) (df sf : nat)
+  (leaf : template) : res str :=
   match sf with
   | O => cde
-  | S sf' => do (out, _) <- pre limit ld leaf df sf' leaf;; Ok out
+  | S sf' => do (out, _) <- pre limit suppress ld leaf df sf' leaf;; Ok out
   end.
 
 (** [env.get_template(name).render()]. *)
-Definition render_name (limit : nat) (ld : loader) (name : str) : res str :=
+Definition render_name (limit : nat) (suppress : bool) (ld : loader) (name : str) : res str :=
   do t <- load ld name;;
-  render_leaf limit ld (limit + 1) (limit - 3) t.
+  render_leaf limit suppress ld (limit + 1) (limit - 3) t.
 
 (** [env.from_string(w).render()] where [w] is a sequence of
     [{% include 'n' %}] (false) and [{% render 'n' %}] (true) tags.
     include: get_template, context.extend(template=...), render_with_context;
     render: get_template, context.copy, render_with_context. *)
-Fixpoint run_wrapper_items (limit : nat) (ld : loader) (sf : nat) (w : list (bool * str)) : res str :=
+Fixpoint run_wrapper_items (limit : nat) (suppress : bool) (ld : loader) (sf : nat)
+  (w : list (bool * str)) : res str :=
   match w with
   | [] => Ok []
   | (is_render, n) :: w' =>
       do a <- (do t <- load ld n;;
                if is_render
-               then render_leaf limit ld limit (limit - 3) t
-               else match sf with O => cde | S sf' => render_leaf limit ld (limit + 1) sf' t end);;
-      do b <- run_wrapper_items limit ld sf w';;
+               then render_leaf limit suppress ld limit (limit - 3) t
+               else match sf with O => cde | S sf' => render_leaf limit suppress ld (limit + 1) sf' t end);;
+      do b <- run_wrapper_items limit suppress ld sf w';;
       Ok (a ++ b)
   end.
 
-Definition run_wrapper (limit : nat) (ld : loader) (w : list (bool * str)) : res str :=
+Definition run_wrapper (limit : nat) (suppress : bool) (ld : loader) (w : list (bool * str)) : res str :=
   match limit - 3 with
   | O => cde
-  | S sf => run_wrapper_items limit ld sf w
+  | S sf => run_wrapper_items limit suppress ld sf w
   end.
 
 (** * Specification (independent of stacks, contexts and limits) *)
@@ -357,9 +418,11 @@ Definition defs (ch : list template) (n : str) : list bdef :=
 
 (** Text of [its] with every block replaced by its most derived definition
     and [Super] by the next less derived one ([sup] = the less derived
-    definitions of the block being rendered). *)
-Fixpoint spec_items (fuel : nat) (ch : list template) (sup : list bdef) (its : list item)
-  : res str :=
+    definitions of the block being rendered).  A block tag is never blank;
+    with [suppress], a body (of a block, if or for) that holds nothing but
+    whitespace text and silent tags contributes nothing ([tblock]). *)
+Fixpoint spec_items (fuel : nat) (suppress : bool) (ch : list template) (sup : list bdef)
+  (its : list item) : res str :=
   match fuel with
   | O => OutOfFuel
   | S f =>
@@ -368,30 +431,34 @@ Fixpoint spec_items (fuel : nat) (ch : list template) (sup : list bdef) (its : l
       | it :: rest =>
           do a <- match it with
                   | Text s => Ok s
+                  | Quiet => Ok []
                   | Ext _ => cde
                   | Super =>
                       match sup with
                       | [] => Ok []
-                      | d :: sup' => spec_items f ch sup' (b_body d)
+                      | d :: sup' => tblock suppress (b_body d) (spec_items f suppress ch sup' (b_body d))
                       end
                   | Blk n req body _ =>
                       match defs ch n with
-                      | [] => if req then reqerr else spec_items f ch [] body
-                      | d :: sup' => if b_req d then reqerr else spec_items f ch sup' (b_body d)
+                      | [] => if req then reqerr else tblock suppress body (spec_items f suppress ch [] body)
+                      | d :: sup' =>
+                          if b_req d then reqerr
+                          else tblock suppress (b_body d) (spec_items f suppress ch sup' (b_body d))
                       end
+                  | Wrap _ body => tblock suppress body (spec_items f suppress ch sup body)
                   end;;
-          do b <- spec_items f ch sup rest;;
+          do b <- spec_items f suppress ch sup rest;;
           Ok (a ++ b)
       end
   end.
 
-Definition spec_inherit (fuel : nat) (ld : loader) (name : str) : res str :=
+Definition spec_inherit (fuel : nat) (suppress : bool) (ld : loader) (name : str) : res str :=
   match assoc name ld with
   | None => notfound
   | Some leaf =>
       if negb (forallb endok_item leaf) then tie
       else do ch <- spec_chain fuel ld [] leaf;;
-           spec_items fuel ch [] (last ch [])
+           spec_items fuel suppress ch [] (last ch [])
   end.
 
 (** * Vocabulary of the rejection theorems *)
